@@ -9,6 +9,7 @@
 package db
 
 import (
+	"math/rand"
 	"context"
 	"encoding/json"
 	"fmt"
@@ -145,8 +146,58 @@ func deliver(ctx context.Context, from, to *replica, docID string, c cid.Cid) er
 	return to.merge(ctx, docID, c)
 }
 
+// dupQueued: diagnosis used to classify a violating history: does the DAG walk of this merge queue
+// some commit more than once (known finding C02-diamond-requeue)?
+func (r *replica) dupQueued(ctx context.Context, docID string, c cid.Cid) bool {
+	col := r.col.(*collection)
+	ctx2, txn, err := ensureContextTxn(ctx, r.db, true)
+	if err != nil {
+		return false
+	}
+	defer txn.Discard(ctx2)
+	mt, err := getHeadsAsMergeTarget(ctx2, keys.HeadstoreDocKey{DocID: docID, FieldID: core.COMPOSITE_NAMESPACE})
+	if err != nil {
+		return false
+	}
+	// second diagnosis: the merge target has heads of different heights (known finding
+	// C01-merge-target-unequal-heads: getHeadsAsMergeTarget assumes they are all equal)
+	var hh uint64
+	first := true
+	for _, b := range mt.heads {
+		if first {
+			hh, first = b.Delta.GetPriority(), false
+		} else if b.Delta.GetPriority() != hh {
+			sawUnequalHeads = true
+		}
+	}
+	mp, err := r.db.newMergeProcessor(ctx2, col)
+	if err != nil {
+		return false
+	}
+	if err := mp.loadComposites(ctx2, c, mt); err != nil {
+		return false
+	}
+	seen := map[cid.Cid]bool{}
+	for e := mp.composites.Front(); e != nil; e = e.Next() {
+		l, err := e.Value.(*coreblock.Block).GenerateLink()
+		if err != nil {
+			continue
+		}
+		if seen[l.Cid] {
+			return true
+		}
+		seen[l.Cid] = true
+	}
+	return false
+}
+
+var sawDupQueued, sawUnequalHeads bool
+
 func (r *replica) merge(ctx context.Context, docID string, c cid.Cid) error {
 	col := r.col.(*collection)
+	if r.dupQueued(ctx, docID, c) {
+		sawDupQueued = true
+	}
 	return r.db.executeMerge(ctx, col, event.Merge{DocID: docID, Cid: c, CollectionID: col.Version().CollectionID})
 }
 
@@ -281,5 +332,367 @@ func TestGovcC05MergeFaults(t *testing.T) {
 	t.Log(string(data))
 	if len(viols) > 0 {
 		t.Fatalf("C05 violated in merge: %d fault points", len(viols))
+	}
+}
+
+// ---------------------------------------------------------------- C01: replay of (*LWW).setValue#ensures "a merge fails only when the store fails"
+
+// TestGovcC01NullTie: two replicas update the same register concurrently at the same height, one of
+// them to null.  Merging the non-null write into the replica that holds null must not fail.
+func TestGovcC01NullTie(t *testing.T) {
+	ctx := context.Background()
+	r1 := newReplica(t, ctx, "r1", `type Users { name: String age: Int }`)
+	r2 := newReplica(t, ctx, "r2", `type Users { name: String age: Int }`)
+	docID, err := r1.create(ctx, `{"name":"a","age":1}`)
+	if err != nil {
+		t.Fatal(err)
+	}
+	if id2, err := r2.create(ctx, `{"name":"a","age":1}`); err != nil || id2 != docID {
+		t.Fatalf("genesis differs: %v", err)
+	}
+	if err := r1.update(ctx, docID, "name", nil); err != nil {
+		t.Fatal(err)
+	}
+	if err := r2.update(ctx, docID, "name", "b"); err != nil {
+		t.Fatal(err)
+	}
+	h2, _ := r2.docHeads(ctx, docID)
+	h1, _ := r1.docHeads(ctx, docID)
+	if err := deliver(ctx, r2, r1, docID, h2[0]); err != nil {
+		t.Errorf("merge of a well-formed commit failed on the replica holding null: %v", err)
+	}
+	if err := deliver(ctx, r1, r2, docID, h1[0]); err != nil {
+		t.Errorf("merge of a well-formed commit failed on the replica holding the value: %v", err)
+	}
+	v1, v2 := r1.view(ctx, docID), r2.view(ctx, docID)
+	if v1 != v2 {
+		t.Errorf("replicas diverge:\n r1: %s\n r2: %s", v1, v2)
+	}
+}
+
+// ---------------------------------------------------------------- bounded enumeration (C01 / C02 / C04)
+
+type bOp struct {
+	kind string // name, inc, del, sync
+	r    int    // acting replica (sync: source)
+	to   int    // sync: destination
+	val  any    // name: string or nil
+}
+
+func (o bOp) String() string {
+	switch o.kind {
+	case "name":
+		return fmt.Sprintf("r%d.name=%v", o.r, o.val)
+	case "inc":
+		return fmt.Sprintf("r%d.points+=%v", o.r, o.val)
+	case "del":
+		return fmt.Sprintf("r%d.delete", o.r)
+	}
+	return fmt.Sprintf("sync(r%d>r%d)", o.r, o.to)
+}
+
+func bAlphabet(k int) []bOp {
+	var ops []bOp
+	for r := 0; r < k; r++ {
+		ops = append(ops, bOp{kind: "name", r: r, val: "x"}, bOp{kind: "name", r: r, val: "y"}, bOp{kind: "name", r: r, val: nil},
+			bOp{kind: "inc", r: r, val: int64(1 + r)}, bOp{kind: "del", r: r})
+		for t := 0; t < k; t++ {
+			if t != r {
+				ops = append(ops, bOp{kind: "sync", r: r, to: t})
+			}
+		}
+	}
+	return ops
+}
+
+type bResult struct {
+	DupQueued bool     `json:"dup_queued"`
+	UnequalHeads bool  `json:"unequal_heads"`
+	History   string   `json:"history"`
+	Problems  []string `json:"problems"`
+	MergeErrs []string `json:"merge_errors,omitempty"`
+}
+
+// runHistory executes one history on k fresh replicas and returns the list of property violations.
+func runHistory(t *testing.T, ctx context.Context, k int, hist []bOp) (res bResult) {
+	var names []string
+	for _, o := range hist {
+		names = append(names, o.String())
+	}
+	res = bResult{History: strings.Join(names, "; ")}
+	sawDupQueued, sawUnequalHeads = false, false
+	defer func() { res.DupQueued, res.UnequalHeads = sawDupQueued, sawUnequalHeads }()
+	reps := make([]*replica, k)
+	var docID string
+	for i := range reps {
+		reps[i] = newReplica(t, ctx, fmt.Sprintf("r%d", i), mhSchema)
+		id, err := reps[i].create(ctx, `{"name":"a","age":1,"points":10}`)
+		if err != nil {
+			t.Fatal(err)
+		}
+		if i > 0 && id != docID {
+			res.Problems = append(res.Problems, "C04/C13: genesis document ids differ")
+		}
+		docID = id
+	}
+	defer func() {
+		for _, r := range reps {
+			r.db.Close()
+		}
+	}()
+	g0, _ := reps[0].docHeads(ctx, docID)
+	for i := 1; i < k; i++ {
+		gi, _ := reps[i].docHeads(ctx, docID)
+		if len(g0) != 1 || len(gi) != 1 || g0[0] != gi[0] {
+			res.Problems = append(res.Problems, "C04: genesis commits are not byte-identical across replicas")
+		}
+	}
+	sumInc := int64(0)
+	deleted := false
+	syncHeads := func(from, to int) {
+		hs, err := reps[from].docHeads(ctx, docID)
+		if err != nil {
+			res.Problems = append(res.Problems, "heads: "+err.Error())
+			return
+		}
+		for _, h := range hs {
+			if err := deliver(ctx, reps[from], reps[to], docID, h); err != nil {
+				res.MergeErrs = append(res.MergeErrs, fmt.Sprintf("r%d>r%d %s: %v", from, to, h, err))
+			}
+		}
+	}
+	for _, o := range hist {
+		r := reps[o.r]
+		switch o.kind {
+		case "name":
+			if err := r.update(ctx, docID, "name", o.val); err != nil && !strings.Contains(err.Error(), "not found") {
+				res.Problems = append(res.Problems, fmt.Sprintf("local op %s failed: %v", o, err))
+			}
+		case "inc":
+			if err := r.update(ctx, docID, "points", o.val); err != nil {
+				if !strings.Contains(err.Error(), "not found") {
+					res.Problems = append(res.Problems, fmt.Sprintf("local op %s failed: %v", o, err))
+				}
+			} else {
+				sumInc += o.val.(int64)
+			}
+		case "del":
+			if err := r.delete(ctx, docID); err == nil {
+				deleted = true
+			}
+		case "sync":
+			syncHeads(o.r, o.to)
+		}
+	}
+	// final exchange: two rounds of everybody -> everybody
+	for round := 0; round < 2; round++ {
+		for a := 0; a < k; a++ {
+			for b := 0; b < k; b++ {
+				if a != b {
+					syncHeads(a, b)
+				}
+			}
+		}
+	}
+	if len(res.MergeErrs) > 0 {
+		res.Problems = append(res.Problems, fmt.Sprintf("C01: %d merges of well-formed commits failed (first: %s)", len(res.MergeErrs), res.MergeErrs[0]))
+	}
+	v0 := reps[0].view(ctx, docID)
+	for i := 1; i < k; i++ {
+		if vi := reps[i].view(ctx, docID); vi != v0 {
+			res.Problems = append(res.Problems, fmt.Sprintf("C01: replicas diverge after quiescence: r0{%s} r%d{%s}", v0, i, vi))
+		}
+	}
+	want := fmt.Sprintf("points=%d;", 10+sumInc)
+	for i, r := range reps {
+		v := r.view(ctx, docID)
+		if !strings.Contains(v, want) {
+			res.Problems = append(res.Problems, fmt.Sprintf("C02: r%d counter is not initial+sum of increments (%s): %s", i, want, v))
+		}
+		if deleted && strings.Contains(v, "live=true") {
+			res.Problems = append(res.Problems, fmt.Sprintf("C02: r%d shows a deleted document as live: %s", i, v))
+		}
+		for _, p := range dagProblems(ctx, r, docID) {
+			res.Problems = append(res.Problems, fmt.Sprintf("C04: r%d %s", i, p))
+		}
+	}
+	return res
+}
+
+// dagProblems checks the stored commit graph of one document on one replica.
+func dagProblems(ctx context.Context, r *replica, docID string) []string {
+	var ps []string
+	bs := datastore.BlockstoreFrom(r.store)
+	heads, err := r.docHeads(ctx, docID)
+	if err != nil {
+		return []string{"heads: " + err.Error()}
+	}
+	// walk the composite graph from the heads
+	parentOf := map[cid.Cid]bool{}
+	seen := map[cid.Cid]*coreblock.Block{}
+	var walk func(c cid.Cid) uint64
+	walk = func(c cid.Cid) uint64 {
+		if b, ok := seen[c]; ok {
+			if b == nil {
+				return 0
+			}
+			return b.Delta.GetPriority()
+		}
+		raw, err := bs.Get(ctx, c)
+		if err != nil {
+			seen[c] = nil
+			ps = append(ps, fmt.Sprintf("link %s does not resolve to a stored block", c))
+			return 0
+		}
+		b, err := coreblock.GetFromBytes(raw.RawData())
+		if err != nil {
+			seen[c] = nil
+			ps = append(ps, fmt.Sprintf("block %s does not decode: %v", c, err))
+			return 0
+		}
+		seen[c] = b
+		if l, err := b.GenerateLink(); err != nil || l.Cid != c {
+			ps = append(ps, fmt.Sprintf("block filed under %s hashes to %v", c, l.Cid))
+		}
+		maxp := uint64(0)
+		for _, h := range b.Heads {
+			parentOf[h.Cid] = true
+			if p := walk(h.Cid); p > maxp {
+				maxp = p
+			}
+		}
+		for _, l := range b.Links {
+			if _, err := bs.Get(ctx, l.Link.Cid); err != nil {
+				ps = append(ps, fmt.Sprintf("field link %s of %s does not resolve", l.Link.Cid, c))
+			}
+		}
+		if b.Delta.GetPriority() != maxp+1 {
+			ps = append(ps, fmt.Sprintf("commit %s has height %d, parents' maximum is %d", c, b.Delta.GetPriority(), maxp))
+		}
+		return b.Delta.GetPriority()
+	}
+	for _, h := range heads {
+		walk(h)
+	}
+	for _, h := range heads {
+		if parentOf[h] {
+			ps = append(ps, fmt.Sprintf("head %s is named as parent by another merged commit", h))
+		}
+	}
+	return ps
+}
+
+// TestGovcBoundedMerge: VERIF_BOUND_K replicas (default 2), all histories of length <= VERIF_BOUND_L
+// (default 2) over the operation alphabet; results in VERIF_BOUND_OUT.
+func TestGovcBoundedMerge(t *testing.T) {
+	k, L := 2, 2
+	fmt.Sscanf(os.Getenv("VERIF_BOUND_K"), "%d", &k)
+	fmt.Sscanf(os.Getenv("VERIF_BOUND_L"), "%d", &L)
+	ctx := context.Background()
+	alpha := bAlphabet(k)
+	var bad []bResult
+	cases := 0
+	distinct := map[string]bool{}
+	var rec func(prefix []bOp)
+	rec = func(prefix []bOp) {
+		if len(prefix) > 0 {
+			res := runHistory(t, ctx, k, prefix)
+			cases++
+			distinct[res.History] = true
+			if len(res.Problems) > 0 {
+				bad = append(bad, res)
+			}
+		}
+		if len(prefix) == L {
+			return
+		}
+		for _, o := range alpha {
+			rec(append(append([]bOp{}, prefix...), o))
+		}
+	}
+	rec(nil)
+	// optional: VERIF_BOUND_RANDOM histories of length VERIF_BOUND_RLEN on VERIF_BOUND_RK replicas (seeded)
+	nr, rl, rk, seed := 0, 8, 3, int64(1)
+	fmt.Sscanf(os.Getenv("VERIF_BOUND_RANDOM"), "%d", &nr)
+	fmt.Sscanf(os.Getenv("VERIF_BOUND_RLEN"), "%d", &rl)
+	fmt.Sscanf(os.Getenv("VERIF_BOUND_RK"), "%d", &rk)
+	fmt.Sscanf(os.Getenv("VERIF_SEED"), "%d", &seed)
+	rng := rand.New(rand.NewSource(seed))
+	ralpha := bAlphabet(rk)
+	for i := 0; i < nr; i++ {
+		var h []bOp
+		for j := 0; j < rl; j++ {
+			h = append(h, ralpha[rng.Intn(len(ralpha))])
+		}
+		res := runHistory(t, ctx, rk, h)
+		cases++
+		distinct[res.History] = true
+		if len(res.Problems) > 0 {
+			bad = append(bad, res)
+		}
+	}
+	out := map[string]any{"replicas": k, "max_history": L, "alphabet": len(alpha), "cases": cases, "distinct": len(distinct), "violating": bad}
+	data, _ := json.MarshalIndent(out, "", " ")
+	if p := os.Getenv("VERIF_BOUND_OUT"); p != "" {
+		os.WriteFile(p, data, 0o644)
+	}
+	t.Logf("bounded merge: k=%d L=%d cases=%d violating=%d", k, L, cases, len(bad))
+	if len(bad) > 0 {
+		t.Fail()
+	}
+}
+
+// parseHistory: "r0.name=x; sync(r0>r1); r1.points+=2; r1.delete"
+func parseHistory(s string) []bOp {
+	var ops []bOp
+	for _, p := range strings.Split(s, ";") {
+		p = strings.TrimSpace(p)
+		if p == "" {
+			continue
+		}
+		var a, b int
+		var v string
+		switch {
+		case strings.HasPrefix(p, "sync("):
+			fmt.Sscanf(p, "sync(r%d>r%d)", &a, &b)
+			ops = append(ops, bOp{kind: "sync", r: a, to: b})
+		case strings.Contains(p, ".name="):
+			fmt.Sscanf(p, "r%d.name=%s", &a, &v)
+			if v == "<nil>" {
+				ops = append(ops, bOp{kind: "name", r: a, val: nil})
+			} else {
+				ops = append(ops, bOp{kind: "name", r: a, val: v})
+			}
+		case strings.Contains(p, ".points+="):
+			var n int64
+			fmt.Sscanf(p, "r%d.points+=%d", &a, &n)
+			ops = append(ops, bOp{kind: "inc", r: a, val: n})
+		case strings.HasSuffix(p, ".delete"):
+			fmt.Sscanf(p, "r%d.delete", &a)
+			ops = append(ops, bOp{kind: "del", r: a})
+		}
+	}
+	return ops
+}
+
+// TestGovcHistory runs the histories given in VERIF_HISTORIES (separated by '|') on VERIF_BOUND_K replicas.
+func TestGovcHistory(t *testing.T) {
+	k := 3
+	fmt.Sscanf(os.Getenv("VERIF_BOUND_K"), "%d", &k)
+	ctx := context.Background()
+	var all []bResult
+	for _, h := range strings.Split(os.Getenv("VERIF_HISTORIES"), "|") {
+		if strings.TrimSpace(h) == "" {
+			continue
+		}
+		res := runHistory(t, ctx, k, parseHistory(h))
+		all = append(all, res)
+		if len(res.Problems) > 0 {
+			t.Errorf("%s: %v", res.History, res.Problems)
+		}
+	}
+	data, _ := json.MarshalIndent(all, "", " ")
+	if p := os.Getenv("VERIF_BOUND_OUT"); p != "" {
+		os.WriteFile(p, data, 0o644)
 	}
 }
